@@ -135,6 +135,7 @@ pub fn framing_spaces(tier: Tier) -> Vec<ByteSpace> {
     let nd = super::gens::dense_bound(tier);
     v.push(bytes::dense_chain_space(nd));
     v.push(bytes::dense_size_space(nd));
+    v.push(bytes::dense_total_space(nd));
     v
 }
 
